@@ -270,11 +270,15 @@ def run(ctx) -> None:
     n_inst = 0
     for f in db.funcs_in("runners"):
         sets_ = [c for c in db.calls_in(f) if call_names(db, c, f) & LIMITER_SETTERS]
-        if not sets_ or f.name in LIMITER_SETTERS or "max_concurrency" not in f.param_names:
+        # the limit is the parameter the semaphore is built from (a private method may call it anything)
+        limit_names = {a.id for c in db.calls_in(f) if (dotted(c.func) or "").split(".")[-1] == "Semaphore" for a in c.args if isinstance(a, ast.Name)} | {"max_concurrency"}
+        limit_params = [p_ for p_ in f.param_names if p_ in limit_names]
+        if not sets_ or f.name in LIMITER_SETTERS or not limit_params:
             continue
         fcfg = ctx.cfg(f, runner_no_raise(db))
         lim = _limiter_locals(db, f)
-        val = {"max_concurrency is None": False}
+        val = {f"{p_} is None": False for p_ in limit_params}
+        val.update({f"{p_} is not None": True for p_ in limit_params})
         for t in fcfg.nodes:
             if t.kind == "test" and t.ast is not None:
                 for a in _ta(t.ast):
